@@ -185,6 +185,15 @@ def classify(hist, cls, obs, want_states, init):
     if (touching and touching[-1]["op"] == "ss_enable" and cls in ("ok", "rej") and rep_ok and eff and not obs.get("err")
             and all(e.startswith('ss="') for e in eff)):
         return "safesearch-enable-not-in-effect-until-restart"
+    # The emptied list of blocked hosts: accepted, reported and written as empty, then replaced in memory by the three default names
+    # at the next reconfiguration (any dns_config change) or start -- the file keeps saying empty.
+    def but_acc(st, acc):
+        st = dict(st or {})
+        st["acc"] = acc
+        return st
+    if (not obs.get("err") and not eff and (obs.get("file") or {}).get("acc") == "nohosts" and (obs.get("rep") or {}).get("acc") == "none"
+            and any(canon(obs.get("file")) == canon(w) and canon(but_acc(obs.get("rep"), "nohosts")) == canon(w) for w in want_states)):
+        return "access-empty-blocked-hosts-replaced-by-defaults"
     # G07's finding seen from here: a list added after a restart within the same second got the id of a list that was already
     # there (two lists with one id in the file, or the start-up warning about it), so one list file holds the other's rules.
     if (rep_ok and eff and not obs.get("err") and "duplicate filter id" in (obs.get("notes") or [])
@@ -331,7 +340,7 @@ def direction_b(ctx, graph, reports):
         hist = replayable(pairs)
         obs = {"rep": ln.get("rep"), "file": ln.get("file"), "effbad": ln.get("effbad"), "err": ln.get("err"), "notes": ln.get("notes")}
         # the classifier wants the admissible destinations: for the known keys "reported = file" is what matters
-        wants = [ln.get("rep")] if canon(ln.get("rep")) == canon(ln.get("file")) else []
+        wants = [ln.get("file")]
         key = classify(hist, ln.get("cls"), obs, wants, init)
         sig = key or signature(ln["lab"], ln.get("cls"), obs, init)
         groups.setdefault((key, sig), []).append((b, hist))
@@ -374,7 +383,7 @@ def direction_b(ctx, graph, reports):
                 continue
             st = last_of[i][1]
             ob = st.get("obs") or {}
-            wants = [ob.get("rep")] if canon(ob.get("rep")) == canon(ob.get("file")) else []
+            wants = [ob.get("file")]
             if classify(hist, st.get("cls"), ob, wants, init) != key:
                 continue
             reproduced += 1
